@@ -234,6 +234,17 @@ Proof.
   rewrite begin_tx_hooks. reflexivity.
 Qed.
 
+Lemma save_kids_keepers_skip_hooks : forall c t vals kt ks s, c_skip c = true ->
+  hooks_of (s_tr (save_kids_keepers c t vals kt ks s)) = hooks_of (s_tr s).
+Proof.
+  intros c t vals kt ks s H. unfold save_kids_keepers. destruct vals as [|v vr]; [reflexivity|].
+  cbn [s_tr]. unfold kids_create.
+  rewrite commit_hooks, hooks_phase_skip by exact H.
+  rewrite stmt_create_hooks. unfold save_keepers.
+  match goal with |- context [if ?b then _ else _] => destruct b end;
+    rewrite ?save_assoc_skip_hooks by exact H; rewrite hooks_phase_skip by exact H; rewrite begin_tx_hooks; reflexivity.
+Qed.
+
 Lemma nested_delete_skip_hooks : forall c t tb s, c_skip c = true ->
   hooks_of (s_tr (nested_delete c t tb s)) = hooks_of (s_tr s).
 Proof.
@@ -259,7 +270,8 @@ Proof.
     try reflexivity.
   - unfold save_before_assoc. destruct (is_nil (s_err s)); [|reflexivity]. apply save_assoc_skip_hooks. exact H.
   - unfold save_after_assoc. destruct (is_nil (s_err s)); [|reflexivity].
-    rewrite !save_assoc_skip_hooks by exact H. reflexivity.
+    rewrite save_assoc_skip_hooks by exact H.
+    destruct (is_nil (a_keepers a)); [apply save_assoc_skip_hooks | apply save_kids_keepers_skip_hooks]; exact H.
   - unfold delete_before_assoc. destruct (is_nil (s_err s) && negb (is_nil (s_recs s))); [|reflexivity].
     destruct (x_delassoc (c_x c) =? 1); [apply nested_delete_skip_hooks; exact H|].
     destruct (x_delassoc (c_x c) =? 2); [apply nested_delete_skip_hooks; exact H|reflexivity].
